@@ -40,7 +40,8 @@
 (*   c    log data: "ok" | "long" (trailing bytes: decodes) | "short"      *)
 (*        (truncated) | "wide" (a uint64 word >= 2^64): UnpackLog fails |  *)
 (*        "nodata" (no data at all): bind.UnpackLog skips the decoding of  *)
-(*        empty data, every field of the event is 0                        *)
+(*        empty data, every field of the event is 0;  "xtopic" (a second   *)
+(*        topic although the event has no indexed field): UnpackLog fails  *)
 (*   pos  log index in the block                                           *)
 (*                                                                         *)
 (* Database of one observer: db = [nb, li, ks, co]: event_sync_progress    *)
@@ -62,7 +63,8 @@
 (*            errors.Wrap(err, ErrDBUpdateFail.Error()) only copies the    *)
 (*            TEXT.                                                        *)
 (*            "fatal": errors other than a deliberately refused event      *)
-(*            (activation block > MaxInt64, several collators) end the     *)
+(*            (activation block > MaxInt64, several collators, a collator  *)
+(*            activation block that is stored already: 23505) end the      *)
 (*            service; the event is retried after the restart              *)
 (*            (docs/fixes-proposed/CHAINOBS-1.diff)                        *)
 (*   CountCap 0: GetAddrs loops countNth times, one eth_call each, and     *)
@@ -70,6 +72,11 @@
 (*            (CHAINOBS-2.diff)                                            *)
 (*   WrapAt   abstract block number from which int32(nextBlockNumber) is   *)
 (*            negative (real 2^31); 0 = never (CHAINOBS-3: bigint)         *)
+(*   CursorRule "gt": Start uses the saved (block, log index) only when    *)
+(*            the saved block is GREATER than the first deployment block;  *)
+(*            with the saved block equal to it the log index is dropped,   *)
+(*            the events of that block are handled again and the progress  *)
+(*            moves backwards;  "ge": greater or equal (CHAINOBS-4.diff)   *)
 (***************************************************************************)
 EXTENDS Integers, Sequences, FiniteSets, TLC
 
@@ -81,7 +88,7 @@ CONSTANTS
     Sets,        \* the AddrsSeq state (see above)
     BaseZero,    \* TRUE: abstract block 0 is the real block 0 (FALSE: the chain starts just below 2^31)
     InitNb,      \* abstract value of next_block_number in a fresh database (0; Low when ~BaseZero)
-    ErrMode, CountCap, WrapAt
+    ErrMode, CountCap, WrapAt, CursorRule
 
 CS == INSTANCE ChainSync
 
@@ -133,7 +140,7 @@ HeadNum(blk, h) == blk[h].num
 (* ChainObserver.Start: the cursor *)
 StartMem(db) ==
     LET pb == U64P(db.nb) IN
-    IF pb > MinDeploy THEN [from |-> pb, fb |-> pb, fl |-> db.li]
+    IF pb > MinDeploy \/ (CursorRule = "ge" /\ pb = MinDeploy) THEN [from |-> pb, fb |-> pb, fl |-> db.li]
     ELSE [from |-> MinDeploy, fb |-> MinDeploy, fl |-> 0]      \* the saved log index is used only with the saved block
 
 (* EventSyncer.sync: upper end of the next page while the head has number cur *)
@@ -151,7 +158,7 @@ GetAddrs(s) ==
            [] Sets[s].ans = "huge" -> [r |-> IF CountCap = 0 THEN "hang" ELSE "fail", mem |-> <<>>]
            [] OTHER                -> [r |-> "fail", mem |-> <<>>]
 
-BadData == {"short", "wide"}
+BadData == {"short", "wide", "xtopic"}
 (* what Next hands to the handler *)
 Decode(e) == IF e.c = "nodata" THEN [e EXCEPT !.idx = 0, !.act = 0, !.set = 1, !.thr = 0] ELSE e
 
@@ -205,7 +212,7 @@ EventTx(db, x, f) ==
     IN IF SqlHit(f, "begin") THEN rb("sql", "fail")
        ELSE IF h.res = "hang" THEN rb("hang", "hang")
        ELSE IF h.ins /\ SqlHit(f, "ins") THEN rb("sql", "fail")
-       ELSE IF h.res = "err" THEN rb(h.cls, IF h.cls \in {"act", "multi"} THEN "refused" ELSE "fail")
+       ELSE IF h.res = "err" THEN rb(h.cls, IF h.cls \in {"act", "multi", "dupco"} THEN "refused" ELSE "fail")
        ELSE IF SqlHit(f, "upd") \/ SqlHit(f, "commit") THEN rb("sql", "fail")
        ELSE LET db2 == [h.db EXCEPT !.nb = I32P(x.num), !.li = x.li + 1] IN
             IF f.k = "dropc" THEN [db |-> db2, com |-> TRUE, err |-> "fail", cls |-> "cc"]
